@@ -120,7 +120,7 @@ def run(prog, tier) -> Result:
     # ---- R12.1 Money: push / guarded pop of the top only
     reg = prog.method("MoneyMeta", "register_converter")
     rem = prog.method("MoneyMeta", "remove_converter")
-    for n in (0, 1, 2):
+    for n in ((0, 1, 2) if tier == "quick" else (0, 1, 2, 3)):
         def body_reg(I, c, n=n):
             cls, convs, stack = mk_stack(c, True, n)
             c.st.c12 = (stack, list(stack.items), convs)
@@ -204,7 +204,7 @@ def run(prog, tier) -> Result:
     # ---- R12.2 enter / exit pairing
     ent = prog.method("MoneyConverter", "__enter__")
     ext = prog.method("MoneyConverter", "__exit__")
-    for n in (0, 1):
+    for n in ((0, 1) if tier == "quick" else (0, 1, 2, 3)):
         def body_ctx(I, c, n=n):
             cls, convs, stack = mk_stack(c, True, n)
             me = convs[3]
@@ -233,7 +233,7 @@ def run(prog, tier) -> Result:
     # ---- R12.3 generic types
     greg = prog.method("QuantityMeta", "register_converter")
     grem = prog.method("QuantityMeta", "remove_converter")
-    for n in (0, 1, 2):
+    for n in ((0, 1, 2) if tier == "quick" else (0, 1, 2, 3)):
         for which in ("new", "member"):
             if which == "member" and n < 1:
                 continue
@@ -301,6 +301,9 @@ def run(prog, tier) -> Result:
     def consulted(st, since):
         return [e[1] for e in st.effects[since:] if e[0] == "convcall"]
 
+    def results(st, since):
+        return [e[2] for e in st.effects[since:] if e[0] == "convresult"]
+
     def history(ops):
         def body(I, c):
             cls, convs, stack = mk_stack(c, False, 0)
@@ -316,7 +319,7 @@ def run(prog, tier) -> Result:
                 else:
                     since = len(c.st.effects)
                     r = I.call_function(ea, [q, u], {})
-                    log.append((observe(I, cls), consulted(c.st, since), r))
+                    log.append((observe(I, cls), consulted(c.st, since), r, results(c.st, since)))
             c.st.c12 = log
             return NONE
         return body
@@ -324,7 +327,12 @@ def run(prog, tier) -> Result:
     def judge_history(o):
         if o.kind == "raise":
             return (exc_sig(o), "history of registrations raised")
-        for registered, seen, r in o.state.c12:
+        for registered, seen, r, given in o.state.c12:
+            # the first result that is not None is the result - whatever its value (an amount of zero is an amount)
+            first = next((g for g in given if not isinstance(g, NoneV)), None)
+            if first is not None and r is not first and not (isinstance(r, Num) and o.state.norm(r.rf).equals(o.state.norm(first.rf))):
+                return ("first non-None converter result is not returned",
+                        f"converters answered {given!r}, conversion gives {r!r}")
             want = list(reversed(registered))
             if not same_list(seen, want[:len(seen)]):
                 return ("converters are not consulted most-recent-first over the currently registered ones",
@@ -341,6 +349,12 @@ def run(prog, tier) -> Result:
         [("reg", 0), ("reg", 1), ("cv", 0), ("rem", 1), ("rem", 0), ("reg", 2), ("reg", 1), ("cv", 0)],
         [("reg", 0), ("reg", 1), ("cv", 0), ("rem", 0), ("cv", 0), ("reg", 0), ("cv", 0)],
     ]
+    if tier == "thorough":
+        H += [
+            [("reg", 0), ("reg", 1), ("reg", 2), ("cv", 0), ("rem", 1), ("cv", 0), ("reg", 1), ("cv", 0), ("rem", 0), ("cv", 0)],
+            [("reg", 2), ("reg", 1), ("reg", 0), ("cv", 0), ("rem", 2), ("rem", 1), ("cv", 0), ("rem", 0), ("cv", 0)],
+            [("reg", 0), ("reg", 0), ("cv", 0), ("rem", 0), ("cv", 0)],
+        ]
     for i, ops in enumerate(H):
         run_stack("R12.3", "Quantity.equiv_amount", "history " + " ".join(f"{op}{j}" if op != "cv" else "convert" for op, j in ops),
                   history(ops), judge_history, min_paths=2)
